@@ -1,5 +1,6 @@
 mod absmodel;
 mod bvhcheck;
+mod sched;
 mod session;
 mod util;
 
@@ -44,6 +45,7 @@ fn main() {
         "worker" => worker(argv.get(2).map(|s| s.as_str()).unwrap_or("")),
         "session" => session::main_session(&args),
         "bvh" => bvhcheck::main_bvh(&args),
+        "sched" => sched::main_sched(&args),
         other => {
             eprintln!("unknown command {}", other);
             std::process::exit(2);
